@@ -65,7 +65,7 @@ TAGS = ["model", "mode", "lr", "x", "y", "dataset", "orange", "android", "notes"
 VALUES = ["bm25", "tfidf", "a", "b", "", "a b", "0.1", "it's", 'say "hi"', "é", "DONE", "RUNNING", "bm25 ", "BM25", "pkg.mod.task"]
 TYPES = ["a.t", "c.t", "c.u", "pkg.mod.task", "other.task", "solo", "deep.er.mod.t"]
 IDS = ["0a1", "0b2", "1c3", "2d4", "3e5", "ffff"]
-XPS = ["e1", "e2", "exp", "z"]
+XPS = ["e1", "e2", "exp", "z", "e", "exp-large", "e10", "xp"]   # names that are substrings / prefixes of one another included
 PATTERNS = ["bm.*", "^tf", "a|b", ".*", "[0-9.]+$", "DONE|ERROR", r"pkg\..*", "x", "(a|b)$", "bm25", r"\w+ \w+", "[A-Z]+", ".", "RUN", "(?i)bm"]
 STATES = ["DONE", "ERROR", "RUNNING"]
 
